@@ -293,9 +293,9 @@ func init() {
 		Assume: []string{"known findings D4 (pointer to nil pointer), D22 (pointer to empty repeated slice) and D24 (null.* as slice element or pointer target) are excluded from generation"},
 		Plan: func(tier string) []core.Lane {
 			if tier == "thorough" {
-				return []core.Lane{{Lane: "plain", Cases: 40000, Shards: 16, TimeoutS: 3600}}
+				return []core.Lane{{Lane: "plain", Cases: 800000, Shards: 16, TimeoutS: 3600}}
 			}
-			return []core.Lane{{Lane: "plain", Cases: 2400, Shards: 16, TimeoutS: 1200}}
+			return []core.Lane{{Lane: "plain", Cases: 12000, Shards: 16, TimeoutS: 1200}}
 		},
 		Case: c09Case,
 	})
